@@ -445,3 +445,15 @@ for _cand, _chosen in itertools.product((['group', 'group2'], ['group2'], ['grou
                       ('compatible_types_narrowed_to_those_holding_the_chosen_amplifier',
                        f"result[2] == [m for m in cand if {_chosen!r} in lib[m].multi_band]")],
              modifies=["equipment['ghost_call'][*]", 'dp[*]', 'voa[*]', 'amp.type_variety'])
+
+# ---------------------------------------------------------------- the spacing of a degree's band is that of the design band holding its middle
+contract('gnpy.core.utils.get_spacing_from_band', props=['C09', 'C08'],
+         params={'design_bands': lst(dct(f_min=real(), f_max=real(), spacing=real()), dct(f_min=real(), f_max=real(), spacing=real())),
+                 'f_min': real(), 'f_max': real()},
+         let={'mid': '(f_min + f_max) / 2', 'b0': 'design_bands[0]', 'b1': 'design_bands[1]'},
+         ensures=[('first_band_holding_the_middle',
+                   "implies(b0['f_min'] <= mid and mid <= b0['f_max'], result == b0['spacing']) and "
+                   "implies(not (b0['f_min'] <= mid and mid <= b0['f_max']) and b1['f_min'] <= mid and mid <= b1['f_max'], result == b1['spacing'])"),
+                  ('none_when_outside_every_band',
+                   "implies(not (b0['f_min'] <= mid and mid <= b0['f_max']) and not (b1['f_min'] <= mid and mid <= b1['f_max']), result is None)")],
+         use_at_calls=False, modifies=[])
